@@ -3,6 +3,7 @@ import contextlib
 import io
 import itertools
 import math
+import re
 from fractions import Fraction
 
 from . import common
@@ -16,10 +17,12 @@ RATIO = ("majority", "supermajority", "weighted", "confidence", "bayesian")
 # what a stub voter does: action_type strings, or raise, or an unusable confidence
 ACTS = ["PERMIT", "EXECUTE", "BLOCK", "DEFER", "ABSTAIN", "FAILURE", "UNKNOWN", "RAISE", "BADCONF"]
 KIND = {"PERMIT": "P", "EXECUTE": "P", "BLOCK": "B", "DEFER": "D", "ABSTAIN": "A", "FAILURE": "A",
-        "UNKNOWN": "A", "RAISE": "A", "BADCONF": "A"}
+        "UNKNOWN": "A", "RAISE": "A", "BADCONF": "A", "INTERRUPT": "A"}
 COQ_ACT = {"PERMIT": "APermit", "EXECUTE": "AExecute", "BLOCK": "ABlock", "DEFER": "ADefer",
            "ABSTAIN": "AOther", "FAILURE": "AOther", "UNKNOWN": "AOther"}
-FAILED = ("RAISE", "BADCONF")
+FAILED = ("RAISE", "BADCONF", "INTERRUPT")   # INTERRUPT: a BaseException, never part of a generated ballot (op "interrupt")
+CB_MODES = ["none", "ok", "raise"]
+COQ_CB = {None: "CbNone", "none": "CbNone", "ok": "CbReturns", "raise": "CbRaises"}
 GRID = [0.0, 0.25, 0.5, 0.75, 1.0, 2.0]
 GRID_THR = [0.0, 0.25, 0.5, 0.75]
 RELS = [1.0, 1.0, 1.0, 1.0, 0.5, 2.0, 0.25]          # powers of two: weight*reliability is exact
@@ -33,6 +36,28 @@ KNOWN_WITNESS = {"strategy": "bayesian", "thr": 0.95, "min_voters": 1, "emergenc
 VT = {"permit": 0, "block": 1, "abstain": 2, "defer": 3}
 
 
+class _HookError(RuntimeError):
+    """What a raising on_quorum_* callback raises."""
+
+
+class _VoterInterrupt(BaseException):
+    """A voter agent's BaseException that is not an Exception (KeyboardInterrupt, SystemExit ...)."""
+
+
+def _result_dict(r):
+    return {"reached": bool(r.reached), "decision": r.decision.value, "total": r.total_votes,
+            "permit": r.permit_votes, "block": r.block_votes, "abstain": r.abstain_votes,
+            "votes": [(v.vote_type.value, Fraction(v.weight), Fraction(v.confidence)) for v in r.votes],
+            "strategy": r.strategy.value}
+
+
+def parse_console(text):
+    """What _print_result told the console, as far as it can be recognised: (counts | None, 'REACHED'|'FAILED'|None)."""
+    m = re.search(r"Permits:\s*(\d+),\s*Blocks:\s*(\d+),\s*Abstains:\s*(\d+)", text or "")
+    r = re.search(r"QUORUM (REACHED|FAILED)", text or "")
+    return (tuple(int(x) for x in m.groups()) if m else None), (r.group(1) if r else None)
+
+
 class _Stub:
     """Scripted voter agent."""
 
@@ -43,6 +68,8 @@ class _Stub:
         from operon_ai.core.types import ActionProtein
         if self.act == "RAISE":
             raise RuntimeError("voter agent failed")
+        if self.act == "INTERRUPT":
+            raise _VoterInterrupt("voter agent interrupted")
         if self.act == "BADCONF":
             return ActionProtein("PERMIT", {"confidence": "very high"}, 1.0)
         payload = {"confidence": self.conf} if self.conf is not None else "free text"
@@ -205,9 +232,17 @@ class C06(Check):
     N_QUICK = 2600
     N_THOROUGH = 30000
     RULE = ("a case is a HISTORY on one QuorumSensing/EmergencyQuorum instance: 1-4 run_vote calls with add_agent, remove_agent, "
-            "set_agent_weight, set_strategy, min_voters assignment, update_reliability, update_all_reliability in between (single-vote "
-            "cases are length-1 histories); observations per vote plus the final colony state (votes_cast, correct_votes, reliability, "
-            "weight); the monitor judges every vote against the colony/configuration read from the instance just before that vote; "
+            "set_agent_weight, set_strategy, min_voters assignment, update_reliability, update_all_reliability, assignment of the "
+            "on_quorum_reached/on_quorum_failed callbacks (absent, returning, raising; also as constructor arguments) in between, and "
+            "run_vote calls that do NOT return: a callback raises after the result was recorded, or a voter's agent raises a "
+            "BaseException in the middle of vote collection - the history goes on on the same instance (single-vote "
+            "cases are length-1 histories); some instances are non-silent; observations per call (how it ended, the result, which "
+            "callback was invoked) plus the final colony state (votes_cast, correct_votes, reliability, weight) and the statistics "
+            "counters; the monitor judges EVERY report of every vote (returned result, result handed to a callback, the new "
+            "get_vote_history() entry, the printed result block) against the colony/configuration read from the instance just before "
+            "that call; exhaustive abort histories: 1-2 calls that do not return (both callbacks raise / last voter's BaseException) "
+            "on an all-PERMIT or all-BLOCK ballot, callbacks kept or removed, then a vote with every permit count, 1..3 (quick) / 1..4 "
+            "(thorough) voters x 7 strategies + EmergencyQuorum; "
             "exhaustive resize histories: vote, grow/shrink the colony (1..4 -> 1..5 quick, 1..5 -> 1..7 thorough), vote again with every "
             "permit count, for THRESHOLD (default, 0.25, 0.5, 2), EmergencyQuorum (0.3, 0.5), MAJORITY, UNANIMOUS. Ballots: "
             "electorates of 0..7 stub voters; per voter action in {PERMIT,EXECUTE,BLOCK,DEFER,ABSTAIN,FAILURE,UNKNOWN}, "
@@ -225,8 +260,11 @@ class C06(Check):
                   "any block defeats UNANIMOUS; reached <=> the per-strategy criterion (stated independently, multiplicatively); "
                   "block->permit and raising a permit voter's weight/confidence never lose PERMIT; counts exact; failed voters are "
                   "zero-confidence abstentions and passive votes never influence the verdict; and over all HISTORIES of one instance (votes interleaved "
-                  "with every public mutator, reliability learning included): each vote's outcome is the aggregation of the current colony's ballot "
-                  "under the current configuration, so every per-ballot theorem holds at every vote. The model is tied to the code by evaluating it "
+                  "with every public mutator, reliability learning included, callbacks that return or raise, and run_vote calls abandoned by a "
+                  "voter's BaseException): each vote's outcome is the aggregation of the current colony's ballot "
+                  "under the current configuration, so every per-ballot theorem holds at every vote; reported counts of every vote are those of "
+                  "its own ballot; the vote following ANY run_vote call (however it ended) is decided as if that call had not happened; callbacks "
+                  "never influence an outcome or the state; on_quorum_reached is only invoked for PERMIT. The model is tied to the code by evaluating it "
                   "in Coq on every generated ballot the implementation ran.")
     LEVEL_NOTE = ("Trusts: Coq kernel+VM; the correspondence harness; exact-rational idealisation of binary64 arithmetic (cases within 1e-9 "
                   "of a decision boundary are skipped unless binary64 is exact there). Axioms: none (Print Assumptions: closed). "
@@ -246,16 +284,20 @@ class C06(Check):
                "(ATP-starved real agents abstain)",
                "NaN/inf weights, confidences and thresholds are outside the modelled domain",
                "instance state modelled: strategy, custom_threshold, min_voters, enable_reliability_tracking, colony (name, weight, "
-               "reliability_score, votes_cast, correct_votes), votes of the last recorded result; agent names are Bacterium_<id>; learned "
+               "reliability_score, votes_cast, correct_votes), votes of the last recorded result, the two callbacks, the three statistics "
+               "counters; agent names are Bacterium_<id>; learned "
                "reliabilities correct/cast are exact rationals in the model and binary64 quotients in the code, so vote weights and "
                "reliabilities are observed on a 2^-30 grid (confidences stay exact) and the 1e-9 margin rule covers the difference",
-               "statistics counters, on_quorum_* callbacks, timeout_seconds and the 1000-entry history cap are not modelled (no verdict reads them)"]
+               "timeout_seconds, the 1000-entry history cap, processing_time_ms, the score fields of QuorumResult and `silent` are not modelled "
+               "(no verdict reads them); callbacks are modelled by what they do to control flow (absent / return / raise), a voter's "
+               "BaseException as abandoning the call at that voter; the console block of a non-silent instance is read with two regular "
+               "expressions (counts line, QUORUM REACHED/FAILED) and ignored where they do not match"]
     ASSUMPTIONS = ["weights, reliabilities, confidences are finite and >= 0; ratio thresholds in [0,1); count thresholds >= 0 "
                    "(0 = default, (0,1) = share of the colony, >= 1 = count)",
                    "unanimous => PERMIT is demanded for THRESHOLD only when the needed count does not exceed the permit votes; for BAYESIAN it is "
                    "demanded at every threshold in [0,1) and its failure for custom thresholds > 0.5 with posterior <= threshold is the known "
                    "finding C06/unanimous-bayesian-high-threshold (unopposed ballots with abstainers are demanded only for thresholds <= 0.5)",
-                   "colony membership does not change during run_vote; callbacks on_quorum_* are not supplied"]
+                   "colony membership and configuration do not change during run_vote (callbacks and voter agents do not call back into the instance)"]
 
     # ------------------------------------------------------------------ generation
     def _thr_for(self, rng, strat, n, exact):
@@ -287,7 +329,16 @@ class C06(Check):
         case = {"strategy": strat, "thr": self._thr_for(rng, strat, n, exact),
                 "min_voters": 1 if em else rng.choice([1, 1, 1, 1, 0, 2, 3, n]), "emergency": em,
                 "voters": [self._rand_voter(rng, exact) for _ in range(n)], "exact": exact}
+        self._rand_reporting(rng, case, 0.12)
         return case
+
+    @staticmethod
+    def _rand_reporting(rng, case, p):
+        """How the instance reports: on_quorum_* callbacks (absent / returning / raising) and console output."""
+        if rng.random() < p:
+            case["callbacks"] = {"reached": rng.choice(CB_MODES), "failed": rng.choice(CB_MODES)}
+        if rng.random() < p / 2:
+            case["verbose"] = True
 
     def _tie_case(self, rng):
         """ratio == threshold exactly (dyadic), possibly with bystanders."""
@@ -347,6 +398,9 @@ class C06(Check):
         nxt = len(ids)
         base["voters"] = [{"w": v["w"], "rel": v["rel"]} for v in base["voters"]]
         base["tracking"] = rng.random() < 0.9
+        base.pop("callbacks", None)
+        base.pop("verbose", None)
+        self._rand_reporting(rng, base, 0.4)
         steps = []
         acts = ["PERMIT", "PERMIT", "PERMIT", "EXECUTE", "BLOCK", "BLOCK", "BLOCK", "DEFER", "ABSTAIN", "RAISE", "BADCONF"]
 
@@ -365,6 +419,15 @@ class C06(Check):
             if k == nvotes - 1:
                 break
             for _ in range(rng.choice([0, 1, 1, 2, 3, 4])):
+                r0 = rng.random()
+                if r0 < 0.10:
+                    steps.append({"op": "callbacks", "reached": rng.choice(CB_MODES), "failed": rng.choice(CB_MODES)})
+                    continue
+                if r0 < 0.20 and ids:
+                    # a run_vote abandoned by a voter's BaseException (k beyond the colony: no call at all)
+                    steps.append({"op": "interrupt", "k": rng.choice(list(range(len(ids))) + [len(ids) - 1, len(ids) + 1]),
+                                  "script": script()})
+                    continue
                 r = rng.random()
                 if r < 0.3 and len(ids) < 8:
                     i = nxt if rng.random() < 0.85 or not ids else rng.choice(ids)    # sometimes a duplicate name
@@ -412,6 +475,35 @@ class C06(Check):
                                         "voters": [{"w": 1.0, "rel": 1.0} for _ in range(n0)], "exact": True,
                                         "steps": [{"op": "vote", "script": [{"act": first, "c": 1.0}] * n0}] + resize +
                                                  [{"op": "vote", "script": [{"act": a, "c": 1.0} for a in second]}]})
+        return out
+
+    def _abort_histories(self):
+        """One or two run_vote calls that do not return (both callbacks raise / the last voter's agent raises a
+        BaseException after everybody else was polled) with an all-PERMIT or all-BLOCK ballot, then - callbacks
+        kept, or removed first - a vote with every permit count: 1..3 (quick) / 1..4 (thorough) voters, every strategy
+        at its default threshold and EmergencyQuorum."""
+        out = []
+        cfgs = [(st, False) for st in STRATS] + [("threshold", True)]
+        top = 3 if self.tier == "quick" else 4
+        raising = {"reached": "raise", "failed": "raise"}
+        for (strat, em) in cfgs:
+            for n in range(1, top + 1):
+                for first in ("PERMIT", "BLOCK"):
+                    lost = {"script": [{"act": first, "c": 1.0}] * n}
+                    for mode in ("callbacks-raise", "callbacks-raise-then-removed", "interrupted"):
+                        for reps in (1, 2):
+                            for np_ in range(n + 1):
+                                steps = [dict(lost, op="interrupt", k=n - 1) if mode == "interrupted" else dict(lost, op="vote")
+                                         for _ in range(reps)]
+                                if mode == "callbacks-raise-then-removed":
+                                    steps.append({"op": "callbacks", "reached": "none", "failed": "none"})
+                                steps.append({"op": "vote", "script": [{"act": a, "c": 1.0} for a in
+                                                                       ["PERMIT"] * np_ + ["BLOCK"] * (n - np_)]})
+                                c = {"strategy": strat, "thr": None, "min_voters": 1, "emergency": em, "tracking": True,
+                                     "voters": [{"w": 1.0, "rel": 1.0} for _ in range(n)], "exact": True, "steps": steps}
+                                if mode != "interrupted":
+                                    c["callbacks"] = dict(raising)
+                                out.append(c)
         return out
 
     def gen_cases(self, rng, n):
@@ -466,6 +558,7 @@ class C06(Check):
                     out.append({"strategy": "threshold", "thr": None, "min_voters": 1, "emergency": True,
                                 "voters": [voter(a) for a in combo], "exact": True})
         out += [c for c in self._resize_histories() if not self._near(c)]
+        out += [c for c in self._abort_histories() if not self._near(c)]
         return out
 
     def known_witnesses(self):
@@ -496,67 +589,116 @@ class C06(Check):
     # ------------------------------------------------------------------ implementation
     def _drive(self, case):
         """Run the whole history on ONE real QuorumSensing / EmergencyQuorum instance.
-        -> {"votes": [(snapshot, result)], "final": [...]}.  The snapshot is the single-vote case read from
-        the instance's public state immediately before that run_vote: strategy, custom_threshold, min_voters,
-        and for every CURRENT colony member its weight, reliability_score and what its agent is scripted to do."""
+        -> {"votes": [(snapshot, result)], "vote_steps": [step index], "final": [...], "stats": [...]}.
+        The snapshot is the single-vote case read from the instance's public state immediately before that
+        run_vote: strategy, custom_threshold, min_voters, and for every CURRENT colony member its weight,
+        reliability_score and what its agent is scripted to do.  The result of a run_vote call is what it
+        returned or, when an on_quorum_* callback raised, what that callback had been handed; every other
+        report of the same vote (callback arguments, the new get_vote_history() entry, the console block of a
+        non-silent instance) is attached to it."""
         from operon_ai.topology import quorum as Q
         from operon_ai.state.metabolism import ATP_Store
         vs = case["voters"]
         budget = ATP_Store(budget=1000, silent=True)
         kw = {} if case.get("tracking", True) else {"enable_reliability_tracking": False}
-        if case.get("emergency"):
-            if case["thr"] is not None:
-                kw["emergency_threshold"] = case["thr"]
-            q = Q.EmergencyQuorum(len(vs), budget, silent=True, **kw)
-        else:
-            q = Q.QuorumSensing(len(vs), budget, strategy=Q.VotingStrategy(case["strategy"]),
-                                threshold=case["thr"], min_voters=case["min_voters"], silent=True, **kw)
+        calls = []
+
+        def hook(which, mode):
+            if mode in (None, "none"):
+                return None
+
+            def cb(result):
+                calls.append((which, _result_dict(result)))
+                if mode == "raise":
+                    raise _HookError(which)
+            return cb
+
+        cbs = case.get("callbacks") or {}
+        if cbs:
+            kw["on_quorum_reached"] = hook("reached", cbs.get("reached"))
+            kw["on_quorum_failed"] = hook("failed", cbs.get("failed"))
+        verbose = bool(case.get("verbose"))
+        sink = io.StringIO()
+        with contextlib.redirect_stdout(sink):
+            if case.get("emergency"):
+                if case["thr"] is not None:
+                    kw["emergency_threshold"] = case["thr"]
+                q = Q.EmergencyQuorum(len(vs), budget, silent=not verbose, **kw)
+            else:
+                q = Q.QuorumSensing(len(vs), budget, strategy=Q.VotingStrategy(case["strategy"]),
+                                    threshold=case["thr"], min_voters=case["min_voters"], silent=not verbose, **kw)
         for p, v in zip(q.colony, vs):
             p.agent = _Stub(p.agent.name, "RAISE", None)
             p.weight = v["w"]
             p.reliability_score = v["rel"]
-        votes = []
-        for st in steps_of(case):
+        votes, vote_steps = [], []
+        for si, st in enumerate(steps_of(case)):
             op = st["op"]
-            if op == "vote":
+            if op in ("vote", "interrupt"):
+                if op == "interrupt" and not st["k"] < len(q.colony):
+                    continue                                  # nobody to interrupt: no call is made
                 script = st["script"]
                 snap_voters = []
                 for k, p in enumerate(q.colony):
                     b = script[k] if k < len(script) else {"act": "RAISE", "c": None}   # beyond the script: the agent raises
+                    if op == "interrupt" and k == st["k"]:
+                        b = {"act": "INTERRUPT", "c": None}
                     p.agent.act, p.agent.conf = b["act"], b["c"]
                     snap_voters.append({"act": b["act"], "c": b["c"], "w": p.weight, "rel": p.reliability_score})
                 snap = {"strategy": q.strategy.value, "thr": q.custom_threshold, "min_voters": q.min_voters,
                         "emergency": False, "voters": snap_voters,
                         "exact": bool(case.get("exact")) and all(_dyadic(x["rel"]) for x in snap_voters)}
+                del calls[:]
+                recorded_before = len(q.get_vote_history(10 ** 6))
+                console = io.StringIO()
                 try:
-                    r = q.run_vote("proposal")      # a single pass over the stub voters: cannot hang, no watchdog thread
-                    t = {"reached": bool(r.reached), "decision": r.decision.value, "total": r.total_votes,
-                         "permit": r.permit_votes, "block": r.block_votes, "abstain": r.abstain_votes,
-                         "votes": [(v.vote_type.value, Fraction(v.weight), Fraction(v.confidence)) for v in r.votes],
-                         "strategy": r.strategy.value}
+                    with contextlib.redirect_stdout(console):
+                        r = q.run_vote("proposal")  # a single pass over the stub voters: cannot hang, no watchdog thread
+                    t = _result_dict(r)
+                    t["end"] = "returned"
                 except ZeroDivisionError:
                     t = {"raised": "ZeroDivisionError"}
+                except _HookError:                  # the caller gets no result; the callback got one
+                    t = dict(calls[-1][1])
+                    t["end"] = "callback-raised"
+                except _VoterInterrupt:
+                    t = {"interrupted": True}
+                t["callbacks"] = list(calls)
+                hist = q.get_vote_history(10 ** 6)
+                if len(hist) == recorded_before + 1:
+                    t["recorded"] = _result_dict(hist[-1])
+                if verbose:
+                    t["console"] = console.getvalue()
                 votes.append((snap, t))
-            elif op == "add":
-                prof = q.add_agent(agent_name(st["id"]), st["w"])
-                prof.agent = _Stub(prof.agent.name, "RAISE", None)
-            elif op == "remove":
-                q.remove_agent(agent_name(st["id"]))
-            elif op == "weight":
-                q.set_agent_weight(agent_name(st["id"]), st["w"])
-            elif op == "strategy":
-                q.set_strategy(Q.VotingStrategy(st["strategy"]), st["thr"])
-            elif op == "min_voters":
-                q.min_voters = st["k"]
-            elif op == "rel":
-                q.update_reliability(agent_name(st["id"]), st["ok"])
-            elif op == "rel_all":
-                q.update_all_reliability(Q.VoteType(st["decision"]))
-            else:
-                raise ValueError(op)
+                vote_steps.append(si)
+                continue
+            with contextlib.redirect_stdout(sink):
+                if op == "add":
+                    prof = q.add_agent(agent_name(st["id"]), st["w"])
+                    prof.agent = _Stub(prof.agent.name, "RAISE", None)
+                elif op == "remove":
+                    q.remove_agent(agent_name(st["id"]))
+                elif op == "weight":
+                    q.set_agent_weight(agent_name(st["id"]), st["w"])
+                elif op == "strategy":
+                    q.set_strategy(Q.VotingStrategy(st["strategy"]), st["thr"])
+                elif op == "min_voters":
+                    q.min_voters = st["k"]
+                elif op == "rel":
+                    q.update_reliability(agent_name(st["id"]), st["ok"])
+                elif op == "rel_all":
+                    q.update_all_reliability(Q.VoteType(st["decision"]))
+                elif op == "callbacks":
+                    q.on_quorum_reached = hook("reached", st.get("reached"))
+                    q.on_quorum_failed = hook("failed", st.get("failed"))
+                else:
+                    raise ValueError(op)
         final = [[int(p.agent.name.split("_")[1]), p.votes_cast, p.correct_votes,
                   grid30(p.reliability_score), grid30(p.weight)] for p in q.colony]
-        return {"votes": votes, "final": final}
+        with contextlib.redirect_stdout(sink):
+            gs = q.get_statistics()
+        stats = [gs["total_votes"], gs["quorums_reached"], gs["quorums_failed"]]
+        return {"votes": votes, "vote_steps": vote_steps, "final": final, "stats": stats}
 
     def _run(self, case):
         """Result of the (first) vote of a case."""
@@ -566,7 +708,7 @@ class C06(Check):
         """Some vote of the history is within rounding distance of its decision boundary."""
         if "steps" not in case:
             return skip_for_rounding(case)
-        return any(skip_for_rounding(snap) for snap, _t in self._drive(case)["votes"])
+        return any(skip_for_rounding(snap) for snap, t in self._drive(case)["votes"] if "interrupted" not in t)
 
     def run_impl(self, case):
         if case.get("real_agents_starved"):
@@ -574,14 +716,20 @@ class C06(Check):
         d = self._drive(case)
         obs = []
         for _snap, t in d["votes"]:
+            if "interrupted" in t:
+                obs.append([-3])
+                continue
             if "raised" in t:
                 obs.append([-1])
-                continue
-            obs.append([1, int(t["reached"]), VT[t["decision"]], t["total"], t["permit"], t["block"], t["abstain"], len(t["votes"])])
-            for (k, w, c) in t["votes"]:
-                obs.append([VT[k], grid30(w), c.numerator, c.denominator])
+            else:
+                obs.append([2 if t["end"] == "callback-raised" else 1, int(t["reached"]), VT[t["decision"]], t["total"],
+                            t["permit"], t["block"], t["abstain"], len(t["votes"])])
+                for (k, w, c) in t["votes"]:
+                    obs.append([VT[k], grid30(w), c.numerator, c.denominator])
+            obs.append([-4] + ([1 if which == "reached" else 2 for which, _r in t["callbacks"]] or [0]))
         obs.append([-2, len(d["final"])])
         obs += d["final"]
+        obs.append([-5] + d["stats"])
         return obs, d
 
     # ------------------------------------------------------------------ model input
@@ -602,10 +750,16 @@ class C06(Check):
             cfg = f"mkConfig {COQ_STRAT[case['strategy']]} {thr} {cz(case['min_voters'])}"
         ws = clist([ctuple(cq(Fraction(v["w"])), cq(Fraction(v["rel"]))) for v in case["voters"]])
         ops = []
+        if case.get("callbacks"):                             # constructor arguments = the first assignment
+            ops.append(f"OSetCallbacks {COQ_CB[case['callbacks'].get('reached')]} {COQ_CB[case['callbacks'].get('failed')]}")
         for st in steps_of(case):
             op = st["op"]
             if op == "vote":
                 ops.append(f"OVote (script_of {clist([self._coq_beh(b) for b in st['script']])})")
+            elif op == "interrupt":
+                ops.append(f"OInterrupted (script_of {clist([self._coq_beh(b) for b in st['script']])}) {int(st['k'])}%nat")
+            elif op == "callbacks":
+                ops.append(f"OSetCallbacks {COQ_CB[st.get('reached')]} {COQ_CB[st.get('failed')]}")
             elif op == "add":
                 ops.append(f"OAdd {cz(st['id'])} {cq(Fraction(st['w']))}")
             elif op == "remove":
@@ -621,6 +775,8 @@ class C06(Check):
                 ops.append(f"OUpdateRel {cz(st['id'])} {'true' if st['ok'] else 'false'}")
             elif op == "rel_all":
                 ops.append(f"OUpdateAll {st['decision'].capitalize()}")
+            else:
+                raise ValueError(op)
         return ctuple(cfg, "true" if case.get("tracking", True) else "false", ws, clist(ops))
 
     # ------------------------------------------------------------------ the property, on the implementation
@@ -633,7 +789,7 @@ class C06(Check):
             return Violation("C06/raises", f"run_vote did not return normally: {trace}")
         nv = len(trace["votes"])
         for k, (snap, t) in enumerate(trace["votes"]):
-            v = self.monitor_vote(snap, t, meta)
+            v = self.monitor_call(snap, t, meta)
             if v is not None:
                 if nv > 1 or "steps" in case:
                     cfg = f"{snap['strategy']}, threshold {snap['thr']}, min_voters {snap['min_voters']}, {len(snap['voters'])} voters"
@@ -642,8 +798,48 @@ class C06(Check):
                 return v
         return None
 
+    def monitor_call(self, snap, t, meta=True):
+        """One run_vote call: EVERY report of the vote it took must satisfy the property against the ballots cast
+        in THAT call - the returned QuorumResult, the QuorumResult handed to on_quorum_reached / on_quorum_failed
+        (also when the callback then raises and the caller gets nothing), the entry the call added to
+        get_vote_history(), and the result block a non-silent instance prints.  A call abandoned by a voter's
+        BaseException reports nothing and is not judged."""
+        if "interrupted" in t:
+            return None
+        v = self.monitor_vote(snap, t, meta)
+        if v is not None:
+            if t.get("end") == "callback-raised":
+                v.what = "result handed to the (raising) callback: " + v.what
+            return v
+        if "raised" in t:
+            return None
+        verdict, margin, exact = criterion(snap)
+        near = margin is not None and (margin < EPS and not (margin == 0 and exact))
+        judged = in_range(snap) and not near
+        for which, r in t.get("callbacks", []):
+            v = self.monitor_vote(snap, r, False)
+            if v is not None:
+                v.what = f"result handed to on_quorum_{which}: " + v.what
+                return v
+            if which == "reached" and judged and verdict != "permit":
+                return Violation("C06/criterion", f"on_quorum_reached was invoked although the stated criterion says {verdict}")
+        if "recorded" in t:
+            v = self.monitor_vote(snap, t["recorded"], False)
+            if v is not None:
+                v.what = "entry added to get_vote_history(): " + v.what
+                return v
+        if t.get("console"):
+            counts, word = parse_console(t["console"])
+            kinds = [b[0] for b in ballot(snap)]
+            cast = (kinds.count("P"), kinds.count("B"), kinds.count("A"))
+            if counts is not None and counts != cast:
+                return Violation("C06/counts", f"console reports permits/blocks/abstains = {counts}, ballots cast {cast}")
+            if word == "REACHED" and judged and verdict != "permit":
+                return Violation("C06/criterion", f"console reports QUORUM REACHED although the stated criterion says {verdict}")
+        return None
+
     def monitor_vote(self, case, trace, meta=True):
-        """The property on one vote; `case` is the single-vote snapshot of the instance."""
+        """The property on one report of one vote; `case` is the single-vote snapshot of the instance."""
         bl = ballot(case)
         n = len(bl)
         kinds = [b[0] for b in bl]
@@ -751,8 +947,23 @@ class C06(Check):
         for st in steps:
             if st["op"] != "vote":
                 ks.append("op=" + st["op"])
+        if case.get("callbacks"):
+            ks.append("callbacks-at-construction")
+        if case.get("verbose"):
+            ks.append("console-output")
         sizes = []
+        unfinished = False
         for snap, t in (trace.get("votes") or []):
+            if unfinished and "interrupted" not in t:
+                ks.append("vote-after-a-call-that-did-not-return")
+            unfinished = "interrupted" in t or "raised" in t or t.get("end") == "callback-raised"
+            if "interrupted" in t:
+                ks.append("outcome=abandoned-by-voter-BaseException")
+                continue
+            if t.get("end") == "callback-raised":
+                ks.append("end=callback-raised")
+            for which, _r in t.get("callbacks", []):
+                ks.append("callback-invoked=" + which)
             ks.append("strategy=" + snap["strategy"])
             ks.append(f"voters={len(snap['voters'])}")
             sizes.append(len(snap["voters"]))
@@ -779,13 +990,13 @@ class C06(Check):
         if case.get("real_agents_starved"):
             return case
         if "steps" in case:
-            steps = common.shrink_list(case["steps"], lambda xs: any(x["op"] == "vote" for x in xs) and pred({**case, "steps": xs}))
+            steps = common.shrink_list(case["steps"], lambda xs: any(x["op"] in ("vote", "interrupt") for x in xs) and pred({**case, "steps": xs}))
             small = {**case, "steps": steps}
             # scripts may now be longer than the colony they address: cut them to the colony size at that vote
             try:
-                sizes = [len(snap["voters"]) for snap, _t in self._drive(small)["votes"]]
-                votes = iter(sizes)
-                cut = [dict(st, script=st["script"][:next(votes)]) if st["op"] == "vote" else st for st in steps]
+                d = self._drive(small)
+                size_at = {si: len(snap["voters"]) for si, (snap, _t) in zip(d["vote_steps"], d["votes"])}
+                cut = [dict(st, script=st["script"][:size_at[i]]) if i in size_at else st for i, st in enumerate(steps)]
                 if pred({**case, "steps": cut}):
                     small = {**case, "steps": cut}
             except Exception:
